@@ -194,11 +194,7 @@ def constructor_validates_files(backend: int, nfiles: int, missing: int) -> bool
     return _run(backend, nfiles, -1, missing, "img", "t1", False, True, 0, False, -1, True, True)
 
 
-def same_directory_required(backend: int, nfiles: int, second_dir_for: int, second_kind: int) -> bool:
-    """
-    pre: 0 <= backend <= 2 and 1 <= nfiles <= 3 and -1 <= second_dir_for <= 2 and 0 <= second_kind <= 2
-    post: _
-    """
+def _same_directory_required(backend, nfiles, second_dir_for, second_kind):
     return _run(backend, nfiles, second_dir_for, -1, "img", "t1", False, True, 1, False, -1, True, True, second_kind=second_kind)
 
 
@@ -210,11 +206,7 @@ def image_selection(backend: int, image: str, tag: str, has_md: bool) -> bool:
     return _run(backend, 1, -1, -1, image, tag, has_md, True, 0, False, -1, True, True)
 
 
-def container_outcomes(backend: int, nchunks: int, stderr_first: bool, fail_after: int, write_result: bool, give_out: bool) -> bool:
-    """
-    pre: 0 <= backend <= 2 and 0 <= nchunks <= 2 and -1 <= fail_after <= 2
-    post: _
-    """
+def _container_outcomes(backend, nchunks, stderr_first, fail_after, write_result, give_out):
     return _run(backend, 2, -1, -1, "img", "t1", False, give_out, nchunks, stderr_first, fail_after, write_result, True)
 
 
@@ -245,11 +237,7 @@ def _winning_position(backend):
     return -1
 
 
-def docker_metadata_position_only(backend: int, i0: int, i1: int, i2: int) -> bool:
-    """
-    pre: 0 <= backend <= 2 and 0 <= i0 <= 1 and 0 <= i1 <= 1 and 0 <= i2 <= 1
-    post: _
-    """
+def _docker_metadata_position_only(backend, i0, i1, i2):
     # the block that wins is decided by its position in the query, not by which blocks happen to be equal (A,B,A / A,A,B / ...)
     k = _winning_position(backend)
     if k < 0:
@@ -257,3 +245,75 @@ def docker_metadata_position_only(backend: int, i0: int, i1: int, i2: int) -> bo
     two = ["reg.example/a:1", "other/b:2"]
     imgs = [two[i0], two[i1], two[i2]]
     return _run(backend, 1, -1, -1, "img", "t", False, True, 0, False, -1, True, True, md_images=(imgs, k))
+
+
+# ---- the three heaviest conditions, one per value of their first enumerated parameter (they run in parallel)
+
+def same_directory_required_k0(backend: int, nfiles: int, second_dir_for: int) -> bool:
+    """
+    pre: 0 <= backend <= 2 and 1 <= nfiles <= 3 and -1 <= second_dir_for <= 2
+    post: _
+    """
+    return _same_directory_required(backend, nfiles, second_dir_for, 0)
+
+
+def container_outcomes_b0(nchunks: int, stderr_first: bool, fail_after: int, write_result: bool, give_out: bool) -> bool:
+    """
+    pre: 0 <= nchunks <= 2 and -1 <= fail_after <= 2
+    post: _
+    """
+    return _container_outcomes(0, nchunks, stderr_first, fail_after, write_result, give_out)
+
+
+def docker_metadata_position_only_b0(i0: int, i1: int, i2: int) -> bool:
+    """
+    pre: 0 <= i0 <= 1 and 0 <= i1 <= 1 and 0 <= i2 <= 1
+    post: _
+    """
+    return _docker_metadata_position_only(0, i0, i1, i2)
+
+def same_directory_required_k1(backend: int, nfiles: int, second_dir_for: int) -> bool:
+    """
+    pre: 0 <= backend <= 2 and 1 <= nfiles <= 3 and -1 <= second_dir_for <= 2
+    post: _
+    """
+    return _same_directory_required(backend, nfiles, second_dir_for, 1)
+
+
+def container_outcomes_b1(nchunks: int, stderr_first: bool, fail_after: int, write_result: bool, give_out: bool) -> bool:
+    """
+    pre: 0 <= nchunks <= 2 and -1 <= fail_after <= 2
+    post: _
+    """
+    return _container_outcomes(1, nchunks, stderr_first, fail_after, write_result, give_out)
+
+
+def docker_metadata_position_only_b1(i0: int, i1: int, i2: int) -> bool:
+    """
+    pre: 0 <= i0 <= 1 and 0 <= i1 <= 1 and 0 <= i2 <= 1
+    post: _
+    """
+    return _docker_metadata_position_only(1, i0, i1, i2)
+
+def same_directory_required_k2(backend: int, nfiles: int, second_dir_for: int) -> bool:
+    """
+    pre: 0 <= backend <= 2 and 1 <= nfiles <= 3 and -1 <= second_dir_for <= 2
+    post: _
+    """
+    return _same_directory_required(backend, nfiles, second_dir_for, 2)
+
+
+def container_outcomes_b2(nchunks: int, stderr_first: bool, fail_after: int, write_result: bool, give_out: bool) -> bool:
+    """
+    pre: 0 <= nchunks <= 2 and -1 <= fail_after <= 2
+    post: _
+    """
+    return _container_outcomes(2, nchunks, stderr_first, fail_after, write_result, give_out)
+
+
+def docker_metadata_position_only_b2(i0: int, i1: int, i2: int) -> bool:
+    """
+    pre: 0 <= i0 <= 1 and 0 <= i1 <= 1 and 0 <= i2 <= 1
+    post: _
+    """
+    return _docker_metadata_position_only(2, i0, i1, i2)
